@@ -225,6 +225,11 @@ func ruleENCSTR(c *Ctx) []Obligation {
 				if owner == nil || owner.Obj().Pkg() == nil || !isIRPkg(owner.Obj().Pkg().Path()) {
 					return true
 				}
+				// an unexported helper type of a printer (a field-list builder holding the node's
+				// keyword) is not an IR value: what it holds was put there by the printer itself
+				if !owner.Obj().Exported() {
+					return true
+				}
 				field := se.Sel.Name
 				// climb through parens / conversions to the consuming construct
 				var node ast.Node = se
@@ -416,49 +421,204 @@ var encPairs = []struct {
 }
 
 // sigilOfEncoder returns the constant prefix and suffix an encoder writes around the name.
+// encPiece: one piece of the text an encoder returns — a constant, or something computed.
+type encPiece struct {
+	s     string
+	known bool
+}
+
+// encPieces lists, in output order, the pieces of the string the expression e denotes inside
+// fd: the parts of a `+` chain, the writes to a local strings.Builder whose String() is
+// returned, and the pieces of a helper of internal/enc called with constant arguments (the
+// sigil handed to sigilIdent('@', name)). bind maps parameters to constant values.
+func (c *Ctx) encPieces(fd *ast.FuncDecl, e ast.Expr, bind map[types.Object]string, depth int) []encPiece {
+	info := c.declPkg[fd].TypesInfo
+	e = unparen(e)
+	constOf := func(x ast.Expr) (string, bool) {
+		x = unparen(x)
+		if tv := info.Types[x]; tv.Value != nil {
+			switch tv.Value.Kind() {
+			case constant.String:
+				return constant.StringVal(tv.Value), true
+			case constant.Int:
+				if v, ok := constant.Int64Val(tv.Value); ok && v >= 0 && v < 0x80 {
+					if b, isBasic := tv.Type.Underlying().(*types.Basic); isBasic && (b.Kind() == types.UntypedRune || b.Kind() == types.Byte || b.Kind() == types.Uint8 || b.Kind() == types.Rune || b.Kind() == types.Int32) {
+						return string(rune(v)), true
+					}
+				}
+			}
+		}
+		if id, ok := x.(*ast.Ident); ok {
+			if v, ok := bind[info.ObjectOf(id)]; ok {
+				return v, true
+			}
+		}
+		// string(c) / byte(c) conversions of a constant
+		if call, ok := x.(*ast.CallExpr); ok && len(call.Args) == 1 {
+			if tv, ok := info.Types[call.Fun]; ok && tv.IsType() {
+				if id, ok := unparen(call.Args[0]).(*ast.Ident); ok {
+					if v, ok := bind[info.ObjectOf(id)]; ok {
+						return v, true
+					}
+				}
+			}
+		}
+		return "", false
+	}
+	if v, ok := constOf(e); ok {
+		return []encPiece{{v, true}}
+	}
+	switch x := e.(type) {
+	case *ast.BinaryExpr:
+		if x.Op == token.ADD {
+			return append(c.encPieces(fd, x.X, bind, depth), c.encPieces(fd, x.Y, bind, depth)...)
+		}
+	case *ast.CallExpr:
+		// b.String() of a local builder: its writes, in source order
+		if se, ok := unparen(x.Fun).(*ast.SelectorExpr); ok && se.Sel.Name == "String" && len(x.Args) == 0 {
+			if id, ok := unparen(se.X).(*ast.Ident); ok {
+				t := info.TypeOf(id)
+				if isNamed(t, "strings", "Builder") || isNamed(t, "bytes", "Buffer") {
+					obj := info.ObjectOf(id)
+					var out []encPiece
+					pm := buildParents(fd.Body)
+					ast.Inspect(fd.Body, func(n ast.Node) bool {
+						call, ok := n.(*ast.CallExpr)
+						if !ok || len(call.Args) != 1 {
+							return true
+						}
+						ws, ok := unparen(call.Fun).(*ast.SelectorExpr)
+						if !ok || !strings.HasPrefix(ws.Sel.Name, "Write") {
+							return true
+						}
+						if wid, ok := unparen(ws.X).(*ast.Ident); !ok || info.ObjectOf(wid) != obj {
+							return true
+						}
+						// a write under a loop or a condition contributes an unknown piece
+						conditional := false
+						for q := pm[call]; q != nil; q = pm[q] {
+							switch q.(type) {
+							case *ast.ForStmt, *ast.RangeStmt, *ast.IfStmt, *ast.SwitchStmt:
+								conditional = true
+							}
+						}
+						if v, ok := constOf(call.Args[0]); ok && !conditional {
+							out = append(out, encPiece{v, true})
+						} else {
+							out = append(out, encPiece{"", false})
+						}
+						return true
+					})
+					return out
+				}
+			}
+		}
+		// a helper of the package
+		if f := calleeOf(info, x); f != nil && f.Pkg() != nil && f.Pkg().Path() == pkgENC && depth < 3 {
+			if hfd := c.funcDecl(f); hfd != nil && hfd.Body != nil && hfd != fd && f.Name() != "EscapeIdent" && f.Name() != "Escape" {
+				hinfo := c.declPkg[hfd].TypesInfo
+				nb := map[types.Object]string{}
+				k := 0
+				for _, fl := range hfd.Type.Params.List {
+					for _, nm := range fl.Names {
+						if k < len(x.Args) {
+							if v, ok := constOf(x.Args[k]); ok {
+								nb[hinfo.Defs[nm]] = v
+							}
+						}
+						k++
+					}
+				}
+				// every return of the helper must give the same leading / trailing constants;
+				// take the pieces of each and merge position-wise where they agree
+				var merged []encPiece
+				first := true
+				ast.Inspect(hfd.Body, func(n ast.Node) bool {
+					if _, isLit := n.(*ast.FuncLit); isLit {
+						return false
+					}
+					r, ok := n.(*ast.ReturnStmt)
+					if !ok || len(r.Results) != 1 {
+						return true
+					}
+					ps := c.encPieces(hfd, r.Results[0], nb, depth+1)
+					if first {
+						merged, first = ps, false
+						return true
+					}
+					// keep the common constant head and tail
+					head := 0
+					for head < len(merged) && head < len(ps) && merged[head].known && ps[head].known && merged[head].s == ps[head].s {
+						head++
+					}
+					tail := 0
+					for tail < len(merged)-head && tail < len(ps)-head && merged[len(merged)-1-tail].known && ps[len(ps)-1-tail].known && merged[len(merged)-1-tail].s == ps[len(ps)-1-tail].s {
+						tail++
+					}
+					nm := append([]encPiece{}, merged[:head]...)
+					nm = append(nm, encPiece{"", false})
+					nm = append(nm, merged[len(merged)-tail:]...)
+					merged = nm
+					return true
+				})
+				if !first {
+					return merged
+				}
+			}
+		}
+	case *ast.Ident:
+		// a local defined once
+		var def ast.Expr
+		n := 0
+		obj := info.ObjectOf(x)
+		ast.Inspect(fd.Body, func(m ast.Node) bool {
+			if as, ok := m.(*ast.AssignStmt); ok && len(as.Lhs) == len(as.Rhs) {
+				for i, l := range as.Lhs {
+					if id, ok := l.(*ast.Ident); ok && info.ObjectOf(id) == obj {
+						n++
+						def = as.Rhs[i]
+					}
+				}
+			}
+			return true
+		})
+		if n == 1 && def != nil && depth < 4 {
+			return c.encPieces(fd, def, bind, depth+1)
+		}
+	}
+	return []encPiece{{"", false}}
+}
+
 func (c *Ctx) sigilOfEncoder(fn *types.Func) (prefix, suffix string, ok bool) {
 	fd := c.funcDecl(fn)
 	if fd == nil {
 		return
 	}
-	info := c.declPkg[fd].TypesInfo
 	prefixes, suffixes := map[string]bool{}, map[string]bool{}
 	ast.Inspect(fd.Body, func(nd ast.Node) bool {
+		if _, isLit := nd.(*ast.FuncLit); isLit {
+			return false
+		}
 		r, ok := nd.(*ast.ReturnStmt)
 		if !ok || len(r.Results) != 1 {
 			return true
 		}
-		// flatten the + chain
-		var parts []ast.Expr
-		var flat func(e ast.Expr)
-		flat = func(e ast.Expr) {
-			if be, ok := unparen(e).(*ast.BinaryExpr); ok && be.Op == token.ADD {
-				flat(be.X)
-				flat(be.Y)
-				return
-			}
-			parts = append(parts, e)
+		ps := c.encPieces(fd, r.Results[0], map[types.Object]string{}, 0)
+		if len(ps) < 2 {
+			return true
 		}
-		flat(r.Results[0])
-		lit := func(e ast.Expr) (string, bool) {
-			tv := info.Types[e]
-			if tv.Value != nil && tv.Value.Kind() == constant.String {
-				return constant.StringVal(tv.Value), true
+		head, tail := "", ""
+		for _, p := range ps {
+			if !p.known {
+				break
 			}
-			return "", false
+			head += p.s
 		}
-		if len(parts) >= 2 {
-			if s, ok := lit(parts[0]); ok {
-				prefixes[strings.TrimRight(strings.TrimSuffix(s, `"`), `\3`)] = true
-			} else {
-				prefixes[""] = true
-			}
-			if s, ok := lit(parts[len(parts)-1]); ok {
-				suffixes[strings.TrimPrefix(s, `"`)] = true
-			} else {
-				suffixes[""] = true
-			}
+		for i := len(ps) - 1; i >= 0 && ps[i].known; i-- {
+			tail = ps[i].s + tail
 		}
+		prefixes[strings.TrimRight(strings.TrimSuffix(head, `"`), `\3`)] = true
+		suffixes[strings.TrimPrefix(tail, `"`)] = true
 		return true
 	})
 	if len(prefixes) != 1 || len(suffixes) != 1 {
